@@ -358,8 +358,11 @@ func Insert(ctx context.Context, scope *ReferenceScope, query parser.InsertQuery
 		query.Table,
 	}
 
-	queryScope.Tx.operationMutex.Lock()
-	defer queryScope.Tx.operationMutex.Unlock()
+	ctx, unlock, err := queryScope.Tx.lockOperation(ctx, query.Table.Object)
+	if err != nil {
+		return nil, insertRecords, err
+	}
+	defer unlock()
 
 	view, err := LoadView(ctx, queryScope, tables, true, false)
 	if err != nil {
@@ -411,8 +414,11 @@ func Update(ctx context.Context, scope *ReferenceScope, query parser.UpdateQuery
 		query.FromClause = parser.FromClause{Tables: query.Tables}
 	}
 
-	queryScope.Tx.operationMutex.Lock()
-	defer queryScope.Tx.operationMutex.Unlock()
+	ctx, unlock, err := queryScope.Tx.lockOperation(ctx, query.Tables[0].(parser.Table).Object)
+	if err != nil {
+		return nil, nil, err
+	}
+	defer unlock()
 
 	view, err := LoadView(ctx, queryScope, query.FromClause.(parser.FromClause).Tables, true, true)
 	if err != nil {
@@ -547,8 +553,11 @@ func Replace(ctx context.Context, scope *ReferenceScope, query parser.ReplaceQue
 		query.Table,
 	}
 
-	queryScope.Tx.operationMutex.Lock()
-	defer queryScope.Tx.operationMutex.Unlock()
+	ctx, unlock, err := queryScope.Tx.lockOperation(ctx, query.Table.Object)
+	if err != nil {
+		return nil, replaceRecords, err
+	}
+	defer unlock()
 
 	view, err := LoadView(ctx, queryScope, tables, true, false)
 	if err != nil {
@@ -604,8 +613,11 @@ func Delete(ctx context.Context, scope *ReferenceScope, query parser.DeleteQuery
 		query.Tables = tables
 	}
 
-	queryScope.Tx.operationMutex.Lock()
-	defer queryScope.Tx.operationMutex.Unlock()
+	ctx, unlock, err := queryScope.Tx.lockOperation(ctx, query)
+	if err != nil {
+		return nil, nil, err
+	}
+	defer unlock()
 
 	view, err := LoadView(ctx, queryScope, tables, true, true)
 	if err != nil {
@@ -775,8 +787,11 @@ func AddColumns(ctx context.Context, scope *ReferenceScope, query parser.AddColu
 		}
 	}
 
-	queryScope.Tx.operationMutex.Lock()
-	defer queryScope.Tx.operationMutex.Unlock()
+	ctx, unlock, err := queryScope.Tx.lockOperation(ctx, query.Table)
+	if err != nil {
+		return nil, 0, err
+	}
+	defer unlock()
 
 	view, err := LoadViewFromTableIdentifier(ctx, queryScope, query.Table, true, false)
 	if err != nil {
@@ -891,8 +906,11 @@ func DropColumns(ctx context.Context, scope *ReferenceScope, query parser.DropCo
 	queryScope := scope.CreateNode()
 	defer queryScope.CloseCurrentNode()
 
-	queryScope.Tx.operationMutex.Lock()
-	defer queryScope.Tx.operationMutex.Unlock()
+	ctx, unlock, err := queryScope.Tx.lockOperation(ctx, query.Table)
+	if err != nil {
+		return nil, 0, err
+	}
+	defer unlock()
 
 	view, err := LoadViewFromTableIdentifier(ctx, queryScope, query.Table, true, false)
 	if err != nil {
@@ -938,8 +956,11 @@ func RenameColumn(ctx context.Context, scope *ReferenceScope, query parser.Renam
 	queryScope := scope.CreateNode()
 	defer queryScope.CloseCurrentNode()
 
-	queryScope.Tx.operationMutex.Lock()
-	defer queryScope.Tx.operationMutex.Unlock()
+	ctx, unlock, err := queryScope.Tx.lockOperation(ctx, query.Table)
+	if err != nil {
+		return nil, err
+	}
+	defer unlock()
 
 	view, err := LoadViewFromTableIdentifier(ctx, queryScope, query.Table, true, false)
 	if err != nil {
@@ -980,8 +1001,11 @@ func SetTableAttribute(ctx context.Context, scope *ReferenceScope, query parser.
 	queryScope := scope.CreateNode()
 	defer queryScope.CloseCurrentNode()
 
-	queryScope.Tx.operationMutex.Lock()
-	defer queryScope.Tx.operationMutex.Unlock()
+	ctx, unlock, err := queryScope.Tx.lockOperation(ctx, query.Table)
+	if err != nil {
+		return nil, log, err
+	}
+	defer unlock()
 
 	view, err := LoadViewFromTableIdentifier(ctx, queryScope, query.Table, true, false)
 	if err != nil {
